@@ -19,7 +19,7 @@ import (
 )
 
 func init() {
-	register(&Prop{ID: "C10", Module: "V.C10.Check", Gen: c10Gen, Quick: 700, Thorough: 12000, Shard: 120})
+	register(&Prop{ID: "C10", Module: "V.C10.Check", Gen: c10Gen, Quick: 600, Thorough: 5000, Shard: 100})
 }
 
 // ---------------------------------------------------------------- the fragment
@@ -641,6 +641,31 @@ func c10UnderscoreInside(p []c10Decl, K []string) bool {
 	return false
 }
 
+// c10ZombieRisk: some object null (at any depth) hits a container K inside whose body (or a descendant's)
+// an earlier declaration has an underscore reference.  d2compiler then re-creates objects from stale
+// reference scopes / surviving connections, in its own traversal order and spelling.
+func c10ZombieRisk(p []c10Decl) bool {
+	sites := c10Sites(p)
+	for _, n := range sites {
+		if !(n.D.Kind == c10Obj && n.D.Prim == c10PNull) {
+			continue
+		}
+		K, ok := c10Abs(n.Scope, n.D.R)
+		if !ok || len(K) == 0 {
+			continue
+		}
+		for _, st := range sites {
+			if st.Pos >= n.Pos || len(st.Scope) == 0 || !c10FoldPrefix(K, st.Scope) {
+				continue
+			}
+			if st.D.R.Ups > 0 || st.D.S.Ups > 0 || st.D.D.Ups > 0 {
+				return true
+			}
+		}
+	}
+	return false
+}
+
 func c10KFStep(p []c10Decl, d *c10Decl) []string {
 	var kf []string
 	all := append(append([]c10Decl(nil), p...), *d)
@@ -734,6 +759,9 @@ func c10Cases(p []c10Decl, class string, kfStep func(p []c10Decl, d *c10Decl, rp
 	if c10LowerClash(p) {
 		c.KF = append(c.KF, "C10-dotted-capital-i-merged-by-graph", "C11-dotted-capital-i-merged-by-graph")
 	}
+	if c10ZombieRisk(p) {
+		c.KF = append(c.KF, "C10-null-container-resurrected", "C11-null-container-resurrected")
+	}
 	out = append(out, c)
 	if len(p) >= 1 {
 		pre := p[:len(p)-1]
@@ -784,8 +812,9 @@ func c10Gen(r *Rng, tier string, n int) []Case {
 		}
 		out = append(out, c10Cases(p, "corpus", c10KFStepC10)...)
 	}
+	base := NewRng(r.U64() ^ 0x5DEECE66D) // the framework's seeds s and s+1 give shifted streams: re-key
 	for len(out) < n {
-		p, class := c10RandProgram(r.Fork(), false)
+		p, class := c10RandProgram(base.Fork(), false)
 		out = append(out, c10Cases(p, class, c10KFStepC10)...)
 	}
 	return out
